@@ -65,7 +65,8 @@ type Term struct {
 	Bound []*Term
 	Pats  [][]*Term
 	id    int
-	hasB  bool // contains bound variable
+	hasB  bool // contains a free bound variable
+	fv    []*Term
 }
 
 var termTab = map[string]*Term{}
@@ -103,21 +104,65 @@ func mk(t *Term) *Term {
 	}
 	termCount++
 	t.id = termCount
+	// free bound variables (a closed term can be named with define-fun and
+	// shared; a term with a free bound variable must be printed inline)
 	if t.Op == "bound" {
-		t.hasB = true
+		t.fv = []*Term{t}
 	}
 	for _, a := range t.Args {
-		if a.hasB {
-			t.hasB = true
+		t.fv = unionFV(t.fv, a.fv)
+	}
+	for _, pat := range t.Pats {
+		for _, x := range pat {
+			t.fv = unionFV(t.fv, x.fv)
 		}
 	}
 	if t.Op == "forall" || t.Op == "exists" || t.Op == "lambda" {
-		// still may contain outer bound variables; conservatively keep hasB
-		// so it is printed inline.
-		t.hasB = true
+		var rest []*Term
+		for _, v := range t.fv {
+			bound := false
+			for _, b := range t.Bound {
+				if b == v {
+					bound = true
+				}
+			}
+			if !bound {
+				rest = append(rest, v)
+			}
+		}
+		t.fv = rest
 	}
+	t.hasB = len(t.fv) > 0
 	termTab[k] = t
 	return t
+}
+
+func unionFV(a, b []*Term) []*Term {
+	if len(b) == 0 {
+		return a
+	}
+	if len(a) == 0 {
+		return b
+	}
+	out := make([]*Term, 0, len(a)+len(b))
+	i, j := 0, 0
+	for i < len(a) && j < len(b) {
+		switch {
+		case a[i].id == b[j].id:
+			out = append(out, a[i])
+			i++
+			j++
+		case a[i].id < b[j].id:
+			out = append(out, a[i])
+			i++
+		default:
+			out = append(out, b[j])
+			j++
+		}
+	}
+	out = append(out, a[i:]...)
+	out = append(out, b[j:]...)
+	return out
 }
 
 func mask(w int) uint64 {
